@@ -454,54 +454,60 @@ func runDoQ(env *roundEnv, spec *clientSpec) {
 				if i >= len(spec.script) {
 					return
 				}
-				q := spec.script[i]
-				ep.register(q)
-				ctx, cancel := context.WithTimeout(context.Background(), 8*time.Second)
-				st, err := conn.OpenStreamSync(ctx)
-				if err != nil {
-					cancel()
-					ep.count("doq_stream_errors", 1)
+				if !doqExchange(env, ep, conn, spec.script[i]) {
 					return
 				}
-				if dl, ok := ctx.Deadline(); ok {
-					_ = st.SetDeadline(dl)
-				}
-				frame := make([]byte, 2+len(q.pkt))
-				binary.BigEndian.PutUint16(frame, uint16(len(q.pkt)))
-				copy(frame[2:], q.pkt)
-				_, werr := st.Write(frame)
-				_ = st.Close()
-				env.sent(q)
-				if werr != nil {
-					cancel()
-					ep.count("doq_stream_errors", 1)
-					continue
-				}
-				buf, rerr := io.ReadAll(io.LimitReader(st, 1<<17))
-				cancel()
-				if len(buf) == 0 {
-					if rerr != nil {
-						ep.count("doq_stream_errors", 1)
-					} else {
-						ep.count("doq_streams_closed_without_reply", 1)
-					}
-					continue
-				}
-				if len(buf) < 2 || int(binary.BigEndian.Uint16(buf)) != len(buf)-2 {
-					if rerr != nil {
-						// the stream died mid-reply: provenance only
-						ep.judgeNonDNS(buf, q)
-						ep.count("doq_stream_errors", 1)
-						continue
-					}
-					ep.mu.Lock()
-					ep.violate("unit/bad-frame/doq", fmt.Sprintf("stream payload of %d bytes is not one length-prefixed message", len(buf)), buf, q, "")
-					ep.mu.Unlock()
-					continue
-				}
-				ep.judge(buf[2:], q)
 			}
 		}()
 	}
 	wg.Wait()
+}
+
+// doqExchange runs one query on a stream of its own and judges what the stream
+// returns against that query. false: the connection cannot open streams any more.
+func doqExchange(env *roundEnv, ep *endpoint, conn *quic.Conn, q *query) bool {
+	ep.register(q)
+	ctx, cancel := context.WithTimeout(context.Background(), 8*time.Second)
+	defer cancel()
+	st, err := conn.OpenStreamSync(ctx)
+	if err != nil {
+		ep.count("doq_stream_errors", 1)
+		return false
+	}
+	if dl, ok := ctx.Deadline(); ok {
+		_ = st.SetDeadline(dl)
+	}
+	frame := make([]byte, 2+len(q.pkt))
+	binary.BigEndian.PutUint16(frame, uint16(len(q.pkt)))
+	copy(frame[2:], q.pkt)
+	_, werr := st.Write(frame)
+	_ = st.Close()
+	env.sent(q)
+	if werr != nil {
+		ep.count("doq_stream_errors", 1)
+		return true
+	}
+	buf, rerr := io.ReadAll(io.LimitReader(st, 1<<17))
+	if len(buf) == 0 {
+		if rerr != nil {
+			ep.count("doq_stream_errors", 1)
+		} else {
+			ep.count("doq_streams_closed_without_reply", 1)
+		}
+		return true
+	}
+	if len(buf) < 2 || int(binary.BigEndian.Uint16(buf)) != len(buf)-2 {
+		if rerr != nil {
+			// the stream died mid-reply: provenance only
+			ep.judgeNonDNS(buf, q)
+			ep.count("doq_stream_errors", 1)
+			return true
+		}
+		ep.mu.Lock()
+		ep.violate("unit/bad-frame/doq", fmt.Sprintf("stream payload of %d bytes is not one length-prefixed message", len(buf)), buf, q, "")
+		ep.mu.Unlock()
+		return true
+	}
+	ep.judge(buf[2:], q)
+	return true
 }
